@@ -286,7 +286,7 @@ let run_fail id rest =
            | Some (Ok ops) ->
              let calls = FailSink.expand ops in
              let total = Stdlib.List.length calls in
-             let k = if kspec.[0] = 'a' then int_of_string (Stdlib.String.sub kspec 1 (Stdlib.String.length kspec - 1))
+             let k = if kspec.[0] = 'a' || kspec.[0] = 'A' then int_of_string (Stdlib.String.sub kspec 1 (Stdlib.String.length kspec - 1))
                      else total * int_of_string (Stdlib.String.sub kspec 1 (Stdlib.String.length kspec - 1)) / 1000 in
              let (res, accepted) = FailSink.write_failing (nat_of_int k) ops in
              let verdict = (match res with Ok _ -> "ok" | Err e -> if int_of_n e = 1 then "err-sink" else "err-other" | Panic _ -> "panic") in
@@ -835,7 +835,10 @@ let run_line (line : string) : string =
        | "SINK" -> run_sink id rest
        | "ENC" -> run_enc id rest
        | "DLV" -> (match Str.bounded_split (Str.regexp_string " ") rest 2 with
-                   | [_mode; r2] -> run_enc id r2 | _ -> id ^ " bad-case")
+                   | [mode; r2] ->
+                     (* hint digit 2: the source's length hint is wrong (outside the domain of the model) *)
+                     if Stdlib.String.length mode > 1 && mode.[1] = '2' then id ^ " ok model-not-consulted" else run_enc id r2
+                   | _ -> id ^ " bad-case")
        | "DEC" -> run_dec id rest
        | "CNT" -> run_cnt id rest
        | "FAIL" -> run_fail id rest
